@@ -272,7 +272,10 @@ def random_actions(rng, ids, ignored, n, maxc=30):
     return acts
 
 
-def bulk_behaviour(bins, beh, n, rng):
+CJK = "零一二三四五六七八九"
+
+
+def bulk_behaviour(bins, beh, n, rng, wide=False):
     """Independent driver for large change sets: n files with fixed-length names (every name + NUL is 16 bytes, so
     records end exactly on 4096-byte boundaries of git's output), first untracked, then committed after an older
     checkpoint, then filtered by a pending map; more than 100 changes cross analyze's batch boundaries."""
@@ -285,8 +288,12 @@ def bulk_behaviour(bins, beh, n, rng):
             t = "a" if i % 3 else "b"
             nm = "%s/%s%011d" % (t, "bk"[i % 2], i)          # 1 + 1 + 1 + 11 = 14... padded below to 15 bytes
             nm = nm + "x"
+            if wide:
+                # names made of three-byte characters, of varying length: every 4096-byte boundary of git's output
+                # falls inside some character
+                nm = "%s/%s%s" % (t, "".join(CJK[int(d)] for d in "%04d" % i), "文書報告版"[: 1 + i % 5] * (1 + i % 3))
             names.append(nm)
-        if n > 300:
+        if n > 300 and not wide:
             # one 16-byte name sorting first shifts every later record end onto a multiple of 16, so that path ends
             # coincide with 4096-byte boundaries of git's output (the smaller sets keep the other alignment)
             names.insert(0, "a/A%013d" % 0)
@@ -397,10 +404,14 @@ def run(pid, tier):
     bulk_sizes = [120, 701] if tier == "quick" else [49, 50, 51, 100, 101, 120, 256, 300, 512, 701, 1024]
     for b, n in enumerate(bulk_sizes):
         jobs.append((len(jobs), None, "bulk", n, None))
+    for n in ([400] if tier == "quick" else [150, 400, 900]):
+        jobs.append((len(jobs), None, "bulkwide", n, None))
     def one(job):
         i, acts, scheme, ids, ign = job
         if scheme == "bulk":
             return bulk_behaviour(bins, i, ids, random.Random(chk.seed * 7919 + i))
+        if scheme == "bulkwide":
+            return bulk_behaviour(bins, i, ids, random.Random(chk.seed * 7919 + i), wide=True)
         return replay_behaviour(bins, i, acts, scheme, ids, ign, random.Random(chk.seed * 7919 + i))
     with ThreadPoolExecutor(max_workers=12) as ex:
         traces = list(ex.map(one, jobs))
@@ -442,11 +453,26 @@ def run(pid, tier):
     chk.assumptions += ["content identifiers are mapped to bytes (and SHA-256 sums back to identifiers) by the harness",
                         "git (system binary) is part of the system under test; it runs with an isolated global config",
                         "file mode changes, git rm --cached and submodules are outside the property's quantifier and not generated"]
+    # ---- the composed specification (Monorail.tla) stepped through real processes, state compared after every action
+    import session
+    if pid == "C19":
+        session.stage(chk, bins, pid, 20 if tier == "quick" else 300, 80)
+    if pid == "C19":
+        chk.assumptions.append("session replay: a mutating invocation is held at hook points by marker files (guarded build); the steps "
+                               "between two hold points are taken as one action of Monorail.tla (CpRead+CpTruncate composed)")
     return chk.finish()
 
 
 def replay(pid, path):
     obj = json.load(open(path))
+    if isinstance(obj.get("replay"), dict) and obj["replay"].get("ev") == "session":
+        import session
+        rc = session.replay_one(pid, obj["replay"])
+        if rc:
+            print("VIOLATION property=%s replay=%s" % (pid, path))
+        else:
+            print("REPLAY: the recorded session behaviour is reproduced by the real system without a mismatch")
+        return rc
     t = [{k: v for k, v in e.items() if k not in ("raw", "scheme")} for e in obj["replay"]["trace"] if e["ev"] != "harness_abort"]
     fails, _, _ = vlib.judge_traces("ChangesJudge", [t], shards=1)
     bad = [f for f in fails if f[3].startswith(TAGS[pid])]
